@@ -1197,7 +1197,7 @@ class Lattice:
 
         """
         coupling_shape, shift_lat_indices = self.coupling_shape(dx)
-        if any([s == 0 for s in coupling_shape]):
+        if any([s <= 0 for s in coupling_shape]):  # (negative: displacement larger than the lattice)
             if strength is None:
                 return [], [], np.zeros([0, self.dim]), coupling_shape
             else:
@@ -1321,7 +1321,7 @@ class Lattice:
         dx = np.array([op_dx for _, op_dx, op_u in ops], dtype=np.int_).reshape([1, Nops, D])
         u = np.array([op_u for _, op_dx, op_u in ops], dtype=np.int_).reshape([1, Nops, 1])
         coupling_shape, shift_lat_indices = self.multi_coupling_shape(dx[0, :, :])
-        if any([s == 0 for s in coupling_shape]):
+        if any([s <= 0 for s in coupling_shape]):  # (negative: displacement larger than the lattice)
             if strength is None:
                 return [], [], coupling_shape
             else:
